@@ -1,2 +1,301 @@
-//! Harnesses for property C09 (see /verif/properties.jsonl).
+//! Harnesses for property C09 (see /verif/properties.jsonl): kiss-o'-death handling of a plain
+//! (unauthenticated) source. The NTS half ("DENY/RSTR demobilises an NTS source") is with C07.
+//!
+//! A *valid KISS answer* is built from the wire format: it answers the pending request (origin /
+//! client cookie equal, request still fresh, expected version), is in server mode and has
+//! stratum 0. v3/v4: the code is the ASCII reference id (RATE, DENY, RSTR, NTSN, anything else).
+//! v5 has no codes: "poll larger than ours (and not 127)" asks to slow down (RATE),
+//! "poll == 127" is a refusal (DENY), the auth-NAK flag is NTSN; the rest is unknown.
+use crate::common::*;
 use crate::stubs;
+use ntp_proto::*;
+
+#[derive(Clone, Copy, PartialEq, Eq)]
+enum Kiss {
+    Rate,
+    Deny,
+    Rstr,
+    Ntsn,
+    Unknown,
+}
+
+/// classification of a stratum-0 packet from its raw bytes
+fn kiss_class(p: &[u8], last_poll: i8) -> Kiss {
+    if version_bits(p) == 5 {
+        let poll = poll_byte(p);
+        if poll > last_poll && poll != 127 {
+            Kiss::Rate
+        } else if poll == 127 {
+            Kiss::Deny
+        } else if p[15] & 0b100 != 0 {
+            Kiss::Ntsn
+        } else {
+            Kiss::Unknown
+        }
+    } else {
+        match &refid4(p) {
+            b"RATE" => Kiss::Rate,
+            b"DENY" => Kiss::Deny,
+            b"RSTR" => Kiss::Rstr,
+            b"NTSN" => Kiss::Ntsn,
+            _ => Kiss::Unknown,
+        }
+    }
+}
+
+/// Restrict to valid KISS answers for the pending request of `pre` (the harness has already
+/// written the pending id into the origin / client-cookie field and set stratum 0).
+#[cfg(kani)]
+fn make_valid_kiss(pkt: &[u8], pre: &Pre) {
+    assert!(origin_field(pkt) == pre.pending_id && stratum_byte(pkt) == 0);
+    kani::assume(mode_bits(pkt) == 4);
+    kani::assume(version_expected(pre.pv, version_bits(pkt)));
+    kani::assume(decodable(pkt));
+    kani::assume(pre.has_pending);
+}
+
+struct Out {
+    before: sh::SourceState,
+    post: sh::SourceState,
+    acts: Acts,
+    n_meas: u8,
+    fresh: bool,
+    after_t: tokio::time::Instant,
+}
+
+#[cfg(kani)]
+fn deliver(src: &mut Src, pre: &Pre, pkt: &[u8]) -> Out {
+    let before = sh::state(src);
+    let acts = collect(src.handle_incoming(pkt, th::ts_from_raw(1), th::ts_from_raw(2)));
+    let after_t = tokio::time::Instant::now();
+    let post = sh::state(src);
+    Out { before, post, acts, n_meas: sh::controller(src).n_meas, fresh: pre.deadline >= after_t, after_t }
+}
+
+/// everything except the version-negotiation state (a valid answer of any kind advances the
+/// upgrade state machine, C12) and the field `skip_remote_min` asks to skip
+fn same_sync_state(a: &sh::SourceState, b: &sh::SourceState, skip_remote_min: bool, skip_deny: bool) -> bool {
+    a.last_poll_interval == b.last_poll_interval
+        && (skip_remote_min || a.remote_min_poll_interval == b.remote_min_poll_interval)
+        && a.pending == b.pending
+        && (skip_deny || a.have_deny_rstr_response == b.have_deny_rstr_response)
+        && a.stratum == b.stratum
+        && a.reference_id == b.reference_id
+        && a.source_id == b.source_id
+        && a.reach == b.reach
+        && a.tries == b.tries
+}
+
+// ------------------------------------------------------------------ RATE
+#[cfg(kani)]
+fn rate_body(src: &mut Src, pre: &Pre, pkt: &[u8]) -> i8 {
+    make_valid_kiss(pkt, pre);
+    kani::assume(kiss_class(pkt, pre.last_poll) == Kiss::Rate);
+    let o = deliver(src, pre, pkt);
+    kani::assume(o.fresh);
+    let rm = th::poll_raw(o.post.remote_min_poll_interval);
+    assert!(o.acts.n == 0 && o.n_meas == 0, "C09: RATE yields no action and no measurement");
+    assert!(rm >= pre.last_poll, "C09: after RATE the source never polls faster than it just did");
+    assert!(rm >= pre.remote_min || pre.remote_min > CFG_MAX_POLL, "C09: RATE never shortens the server-imposed interval below the configured maximum");
+    if pre.remote_min < CFG_MAX_POLL {
+        assert!(rm as i16 >= pre.remote_min as i16 + 1, "C09: each RATE lengthens the interval by at least one step until the maximum");
+    }
+    assert!(same_sync_state(&o.before, &o.post, true, false), "C09: RATE only touches the remote minimum poll interval");
+    assert!(pending_unchanged(src, pre), "C09: pending request untouched by RATE");
+    kani::cover!(pre.remote_min == CFG_MAX_POLL - 1 && rm == CFG_MAX_POLL, "RATE steps up to the configured maximum");
+    kani::cover!(pre.remote_min == CFG_MAX_POLL && pre.last_poll <= CFG_MAX_POLL && rm == CFG_MAX_POLL, "RATE at the maximum stays");
+    kani::cover!(pre.last_poll > pre.remote_min + 1 && rm == pre.last_poll, "RATE jumps to the interval just used");
+    rm
+}
+
+/// the poll that follows a RATE answer
+#[cfg(kani)]
+fn rate_then_timer(src: &mut Src, pre: &Pre, rm: i8) {
+    let acts = collect(src.handle_timer());
+    if let Some(p) = &acts.sent {
+        assert!(poll_byte(p) >= pre.last_poll, "C09: the poll after RATE is not faster than the previous one");
+        assert!(poll_byte(p) >= rm, "C09: the poll after RATE honours the lengthened interval");
+        assert!(th::poll_raw(sh::state(src).last_poll_interval) == poll_byte(p), "C09: advertised poll is the one used");
+        kani::cover!(poll_byte(p) == pre.remote_min + 1 && pre.remote_min >= pre.desired, "next poll one step slower");
+    }
+    kani::cover!(acts.sent.is_some(), "source polls again after RATE");
+    kani::cover!(acts.sent.is_none(), "source resets after RATE");
+}
+
+sharness! {
+    #[kani::unwind(30)]
+    fn c09_rate() {
+        stubs::symbolic_clock();
+        let (mut src, pre) = any_source(PvClass::V4Family);
+        let mut p = any_pkt4();
+        let b0: u8 = kani::any();
+        put_be64(&mut p.b, 24, pre.pending_id);
+        p.b[1] = 0;
+        p.b[12] = b'R';
+        p.b[13] = b'A';
+        p.b[14] = b'T';
+        p.b[15] = b'E';
+        let mut rm: i8 = 0;
+        let mut run = |v: u8| {
+            p.set_b0(v);
+            rm = rate_body(&mut src, &pre, p.bytes());
+        };
+        for_b0!(quick, b0, run);
+        rate_then_timer(&mut src, &pre, rm);
+        kani::cover!(b0 == 0x1C, "RATE from a v3 server");
+    }
+}
+
+sharness! {
+    #[kani::unwind(30)]
+    fn c09_rate_v5() {
+        stubs::symbolic_clock();
+        let (mut src, pre) = any_source(PvClass::V5Family);
+        let mut p = any_pkt5();
+        let sel: u8 = kani::any();
+        put_be64(&mut p.h, 24, pre.pending_id);
+        p.h[1] = 0;
+        let mut rm: i8 = 0;
+        let mut run = |b0: u8, b12: u8, b14: u8, b15: u8| {
+            p.set_hdr(b0, b12, b14, b15);
+            rm = rate_body(&mut src, &pre, p.bytes());
+        };
+        for_v5hdr!(quick, sel, run);
+        rate_then_timer(&mut src, &pre, rm);
+    }
+}
+
+// ------------------------------------------------------------------ DENY / RSTR
+#[cfg(kani)]
+fn deny_body(src: &mut Src, pre: &Pre, pkt: &[u8]) {
+    make_valid_kiss(pkt, pre);
+    let k = kiss_class(pkt, pre.last_poll);
+    kani::assume(k == Kiss::Deny || k == Kiss::Rstr);
+    let o = deliver(src, pre, pkt);
+    kani::assume(o.fresh);
+    assert!(o.acts.n == 0, "C09: DENY/RSTR on an unauthenticated source returns no action (not demobilised at once)");
+    assert!(o.n_meas == 0, "C09: DENY/RSTR is not a measurement");
+    assert!(o.post.have_deny_rstr_response, "C09: DENY/RSTR is remembered");
+    assert!(same_sync_state(&o.before, &o.post, false, true), "C09: DENY/RSTR only sets the deny memory");
+    assert!(pending_unchanged(src, pre), "C09: pending request untouched by DENY/RSTR");
+    kani::cover!(k == Kiss::Deny && !pre.have_deny, "first DENY");
+}
+
+/// the next timer demobilises iff the source is (still) unreachable after its start-up polls
+#[cfg(kani)]
+fn deny_then_timer(src: &mut Src, pre: &Pre) {
+    let acts = collect(src.handle_timer());
+    let dead = pre.reach == 0 && pre.tries >= 3;
+    if dead {
+        assert!(acts.n == 1 && acts.kinds[0] == A_DEMOB && acts.sent.is_none(), "C09: denied and unreachable => exactly Demobilize");
+    } else {
+        assert!(acts.kinds[0] != A_DEMOB && acts.kinds[1] != A_DEMOB && acts.kinds[2] != A_DEMOB, "C09: a reachable source is not demobilised by an unauthenticated DENY/RSTR");
+        assert!(acts.n == 2 && acts.kinds[0] == A_SEND && acts.kinds[1] == A_TIMER, "C09: it keeps polling");
+        assert!(sh::state(src).have_deny_rstr_response, "C09: deny memory survives a poll");
+    }
+    kani::cover!(dead, "demobilised");
+    kani::cover!(!dead && pre.reach == 0, "denied during start-up: keeps trying");
+    kani::cover!(!dead && pre.reach != 0, "denied but reachable: keeps polling");
+}
+
+sharness! {
+    #[kani::unwind(30)]
+    fn c09_deny() {
+        stubs::symbolic_clock();
+        let (mut src, pre) = any_source(PvClass::V4Family);
+        let mut p = any_pkt4();
+        let b0: u8 = kani::any();
+        let rstr: bool = kani::any();
+        put_be64(&mut p.b, 24, pre.pending_id);
+        p.b[1] = 0;
+        let code: &[u8; 4] = if rstr { b"RSTR" } else { b"DENY" };
+        p.b[12] = code[0];
+        p.b[13] = code[1];
+        p.b[14] = code[2];
+        p.b[15] = code[3];
+        let mut run = |v: u8| {
+            p.set_b0(v);
+            deny_body(&mut src, &pre, p.bytes());
+        };
+        for_b0!(quick, b0, run);
+        deny_then_timer(&mut src, &pre);
+        kani::cover!(rstr, "RSTR");
+        kani::cover!(!rstr && b0 == 0x1C, "DENY from a v3 server");
+    }
+}
+
+sharness! {
+    #[kani::unwind(30)]
+    fn c09_deny_v5() {
+        stubs::symbolic_clock();
+        let (mut src, pre) = any_source(PvClass::V5Family);
+        let mut p = any_pkt5();
+        let sel: u8 = kani::any();
+        put_be64(&mut p.h, 24, pre.pending_id);
+        p.h[1] = 0;
+        p.h[2] = 127;
+        let mut run = |b0: u8, b12: u8, b14: u8, b15: u8| {
+            p.set_hdr(b0, b12, b14, b15);
+            deny_body(&mut src, &pre, p.bytes());
+        };
+        for_v5hdr!(quick, sel, run);
+        deny_then_timer(&mut src, &pre);
+    }
+}
+
+// ------------------------------------------------------------------ NTSN / unknown codes, and invalid KISS
+/// Stratum-0 packets with an arbitrary code: NTSN and unknown codes change nothing, whether or
+/// not they answer the pending request; RATE/DENY/RSTR change nothing unless they are valid
+/// answers (request matching comes first).
+#[cfg(kani)]
+fn other_body(src: &mut Src, pre: &Pre, pkt: &[u8]) {
+    let k = kiss_class(pkt, pre.last_poll);
+    let o = deliver(src, pre, pkt);
+    assert!(o.acts.n == 0, "C09: a KISS packet never produces an action on a plain source");
+    assert!(o.n_meas == 0, "C09: a KISS packet is never a measurement");
+    assert!(pending_unchanged(src, pre), "C09: KISS packets leave the pending request alone");
+    if k == Kiss::Ntsn || k == Kiss::Unknown {
+        assert!(same_sync_state(&o.before, &o.post, false, false), "C09: NTSN / unknown KISS code changed synchronisation, polling or demobilisation state");
+    }
+    if !may_match(pre, pkt) {
+        assert!(o.post == o.before, "C09: a KISS packet that does not answer the pending request changed the source");
+    }
+    let valid = must_match(pre, pkt, o.after_t);
+    kani::cover!(valid && k == Kiss::Ntsn, "valid NTSN ignored");
+    kani::cover!(valid && k == Kiss::Unknown, "valid unknown code ignored");
+    kani::cover!(!may_match(pre, pkt) && k == Kiss::Rate && decodable(pkt), "unsolicited RATE ignored");
+    kani::cover!(!may_match(pre, pkt) && k == Kiss::Deny && decodable(pkt), "unsolicited DENY ignored");
+    kani::cover!(valid && k == Kiss::Deny && !o.before.have_deny_rstr_response && o.post.have_deny_rstr_response, "valid DENY honoured");
+}
+
+sharness! {
+    #[kani::unwind(12)]
+    fn c09_other() {
+        stubs::symbolic_clock();
+        let (mut src, pre) = any_source(PvClass::Any);
+        let mut p = any_pkt4();
+        let b0: u8 = kani::any();
+        p.b[1] = 0;
+        let mut run = |v: u8| {
+            p.set_b0(v);
+            other_body(&mut src, &pre, p.bytes());
+        };
+        for_b0!(quick, b0, run);
+    }
+}
+
+sharness! {
+    #[kani::unwind(30)]
+    fn c09_other_v5() {
+        stubs::symbolic_clock();
+        let (mut src, pre) = any_source(PvClass::Any);
+        let mut p = any_pkt5();
+        let sel: u8 = kani::any();
+        p.h[1] = 0;
+        let mut run = |b0: u8, b12: u8, b14: u8, b15: u8| {
+            p.set_hdr(b0, b12, b14, b15);
+            other_body(&mut src, &pre, p.bytes());
+        };
+        for_v5hdr!(all, sel, run);
+    }
+}
